@@ -5,8 +5,10 @@
    `entitled r w h` is the rule: writer w may write instance h when the instance has no
    owner, or w is the owner, or w is strictly stronger than the owner (both matched).
    - not entitled: NotAdded, cache and ownership table unchanged      (only_owner_stores)
-   - entitled: w becomes the owner (alive change) or the ownership is released
-     (dispose / unregister); with no other gate configured the change is Added
+   - entitled: ownership changes exactly when the change is STORED (fix 9c92a58): then w
+     becomes the owner (alive change) or the ownership is released (dispose /
+     unregister); with no other gate configured the change is Added
+   - a change that is not stored never alters the ownership table (not_stored_owns_unchanged)
    - at most one owner per instance, in every reachable state          (one_owner_run)
    - unmatching the owner releases its instances                        (unmatch_releases)
    - witness of recorded class 1: a non-owner's unregister flips the instance state. *)
@@ -181,17 +183,23 @@ Definition owns_after_store (owns3 : list own) (w h : Z) (k : kind) (rts : Z) : 
   | None => if is_alive_kind k then owns3 ++ [mkO h w rts] else owns3
   end.
 
-(* shape of add_change once the instance is known: refused by the ownership gate, or
-   the gate's table (minus the entry when the change is not alive) is written back and
-   the change goes on to the filter and the limits *)
+(* shape of add_change once the instance is known: refused by the ownership gate; or
+   refused by the filter / the limits with the ownership table UNTOUCHED (fix 9c92a58);
+   or stored, and only then the gate's table (minus the entry when the change is not
+   alive) is written back.  (AddPanic: KEEP_LAST depth 0, excluded everywhere.) *)
+Definition is_refusal (a : add_result) : Prop :=
+  a = NotAdded \/ exists h reason, a = Rejected h reason.
+
 Lemma add_change_shape r w data k h t rts l1 :
   touch_instance (r_insts r) h k = Some l1 ->
   match ownership_gate (set_insts r l1) w h rts with
   | None => add_change r w data k h t rts = (set_insts r l1, NotAdded)
   | Some owns2 =>
       let owns3 := if is_alive_kind k then owns2 else remove_own h owns2 in
+      (fst (add_change r w data k h t rts) = set_insts r l1 /\
+       is_refusal (snd (add_change r w data k h t rts))) \/
       (fst (add_change r w data k h t rts) = set_owns (set_insts r l1) owns3 /\
-       snd (add_change r w data k h t rts) <> Added /\ snd (add_change r w data k h t rts) <> AddError) \/
+       snd (add_change r w data k h t rts) = AddPanic /\ q_depth (r_qos r) = Some 0) \/
       (exists samples6 insts5,
          fst (add_change r w data k h t rts) =
            mkR samples6 insts5 (owns_after_store owns3 w h k rts) (r_matched r) (r_qos r) /\
@@ -201,10 +209,14 @@ Proof.
   intros T. destruct (touch_again _ _ _ _ T) as (l2 & T2 & _).
   unfold add_change. rewrite T, (touch_find _ _ _ _ h T), Z.eqb_refl.
   destruct (ownership_gate (set_insts r l1) w h rts) as [owns2|]; [|reflexivity].
-  cbv zeta. cbn [r_insts set_insts set_owns]. rewrite T2. unfold owns_after_store.
+  cbv zeta. cbn [r_insts set_insts set_owns]. rewrite T2. unfold owns_after_store, is_refusal.
   repeat (break_match; cbn [fst snd]);
-    try (left; split; [reflexivity|split; discriminate]);
-    right; eexists; eexists; split; reflexivity.
+    try (left; split; [reflexivity|]; first [left; reflexivity | right; eexists; eexists; reflexivity]);
+    try (right; right; eexists; eexists; split; reflexivity).
+  all: right; left; split; [reflexivity|split; [reflexivity|]].
+  all: match goal with H : andb _ (Z.eqb _ 0) = true |- _ =>
+         apply andb_true_iff in H; destruct H as [H1 H2]; destruct (q_depth (r_qos r)) as [d|];
+         [apply Z.eqb_eq in H1, H2; congruence|discriminate] end.
 Qed.
 
 Lemma owns_after_store_spec owns3 w h k rts :
@@ -223,14 +235,18 @@ Proof.
 Qed.
 
 (* the effect of add_change on ownership, EXCLUSIVE readers *)
+Definition commits (a : add_result) : bool := match a with Added | AddPanic => true | _ => false end.
+
 Lemma add_change_excl r w data k h t rts l1 :
   q_excl (r_qos r) = true -> one_owner r ->
   touch_instance (r_insts r) h k = Some l1 ->
   let r' := fst (add_change r w data k h t rts) in
   let a := snd (add_change r w data k h t rts) in
   if entitled r w h then
-    a <> AddError /\ one_owner r' /\
-    (forall h', owner_of r' h' = if h' =? h then (if is_alive_kind k then Some w else None) else owner_of r h')
+    a <> AddError /\ one_owner r' /\ (a = AddPanic -> q_depth (r_qos r) = Some 0) /\
+    (if commits a
+     then forall h', owner_of r' h' = if h' =? h then (if is_alive_kind k then Some w else None) else owner_of r h'
+     else r_owns r' = r_owns r)
   else a = NotAdded /\ r_owns r' = r_owns r /\ r_samples r' = r_samples r.
 Proof.
   intros He ND T. cbv zeta.
@@ -248,15 +264,38 @@ Proof.
     { intros h'. unfold owns3. destruct (is_alive_kind k); [apply G2|].
       rewrite find_own_remove by exact G3. destruct (h' =? h) eqn:E; [reflexivity|].
       rewrite G2, E. reflexivity. }
-    destruct Sh as [(Sf & Sa & Se) | (s6 & i5 & Sf & Sa)].
-    + split; [exact Se|]. rewrite Sf. unfold one_owner, owner_of. cbn [r_owns set_owns]. split; [exact N3|exact O3].
-    + split; [rewrite Sa; discriminate|]. rewrite Sf. unfold one_owner, owner_of. cbn [r_owns].
+    destruct Sh as [(Sf & Sa) | [(Sf & Sa & Sd) | (s6 & i5 & Sf & Sa)]].
+    + rewrite Sf. unfold one_owner. cbn [r_owns set_insts].
+      destruct Sa as [Sa | (h0 & rs & Sa)]; rewrite Sa; cbn [commits];
+        (split; [discriminate|split; [exact ND|split; [discriminate|reflexivity]]]).
+    + rewrite Sf, Sa. cbn [commits]. unfold one_owner, owner_of. cbn [r_owns set_owns].
+      split; [discriminate|]. split; [exact N3|]. split; [intros _; exact Sd|exact O3].
+    + rewrite Sf, Sa. cbn [commits]. unfold one_owner, owner_of. cbn [r_owns].
       assert (Hn : find_own h owns3 = None -> is_alive_kind k = false).
       { intros F. specialize (O3 h). rewrite F, Z.eqb_refl in O3. cbn [option_map] in O3.
         destruct (is_alive_kind k); [discriminate|reflexivity]. }
-      destruct (owns_after_store_spec owns3 w h k rts Hn) as [M1 M2]. split; [now rewrite M1|].
+      destruct (owns_after_store_spec owns3 w h k rts Hn) as [M1 M2].
+      split; [discriminate|]. split; [now rewrite M1|]. split; [discriminate|].
       intros h'. rewrite M2. apply O3.
   - rewrite G, Sh. cbn [fst snd r_owns r_samples set_insts]. auto.
+Qed.
+
+(* the point of fix 9c92a58, for ALL qos and ALL reader states: a change that is not
+   stored leaves the ownership table as it was *)
+Theorem not_stored_owns_unchanged r w data k h t rts :
+  q_depth (r_qos r) <> Some 0 ->
+  snd (add_change r w data k h t rts) <> Added ->
+  r_owns (fst (add_change r w data k h t rts)) = r_owns r.
+Proof.
+  intros Hd Ha. destruct (touch_instance (r_insts r) h k) as [l1|] eqn:T.
+  - pose proof (add_change_shape r w data k h t rts l1 T) as Sh.
+    destruct (ownership_gate (set_insts r l1) w h rts) as [owns2|].
+    + cbv zeta in Sh. destruct Sh as [(Sf & _) | [(_ & _ & Sd) | (s6 & i5 & _ & Sa)]].
+      * rewrite Sf. reflexivity.
+      * contradiction.
+      * contradiction.
+    + rewrite Sh. reflexivity.
+  - unfold add_change. rewrite T. reflexivity.
 Qed.
 
 Lemma add_change_unknown r w data k h t rts :
@@ -341,8 +380,10 @@ Proof.
       { intros h' Hk. rewrite HI, (touch_find _ _ _ _ h' T). destruct (h' =? h) eqn:E; [discriminate|].
         destruct Hk as [Hk|Hk]; [exact Hk|]. apply Z.eqb_neq in E. contradiction. }
       destruct (entitled r w h).
-      * destruct H as (_ & H1 & H2). split; [exact H1|]. intros h' Ho. apply Known. rewrite H2 in Ho.
-        destruct (h' =? h) eqn:E; [right; now apply Z.eqb_eq|left; now apply OK].
+      * destruct H as (_ & H1 & _ & H2). split; [exact H1|]. intros h' Ho. apply Known.
+        destruct (commits a).
+        -- rewrite H2 in Ho. destruct (h' =? h) eqn:E; [right; now apply Z.eqb_eq|left; now apply OK].
+        -- left. apply OK. unfold owner_of in *. now rewrite <- H2.
       * destruct H as (_ & H1 & _). unfold one_owner, owned_known, owner_of. rewrite H1.
         split; [exact ND|]. intros h' Ho. apply Known. left. now apply OK.
     + rewrite HI. cbn [fst]. split; assumption.
@@ -381,6 +422,12 @@ Proof.
   apply run_from_inv; [exact step_excl_inv|]. split; [exact He|]. split; [constructor|].
   intros h Ho. exfalso. apply Ho. reflexivity.
 Qed.
+
+Theorem not_stored_owns_unchanged_run q ops w data k h t rts :
+  q_depth q <> Some 0 ->
+  snd (add_change (run q ops) w data k h t rts) <> Added ->
+  r_owns (fst (add_change (run q ops) w data k h t rts)) = r_owns (run q ops).
+Proof. intros Hd. apply not_stored_owns_unchanged. now rewrite run_qos. Qed.
 
 (* ------------------------------------------------------------------ the theorems *)
 Section History.
@@ -421,13 +468,30 @@ Section History.
     apply orb_false_iff. split; [now apply Z.eqb_neq|apply Z.ltb_ge; exact Hle].
   Qed.
 
-  (* an entitled writer becomes the owner / releases the ownership, whatever the later gates say *)
+  (* ownership changes only through STORED changes: for every writer, every change *)
+  Theorem not_stored_owner_unchanged w data k h t rts :
+    q_depth q <> Some 0 ->
+    snd (add_change r w data k h t rts) <> Added ->
+    r_owns (fst (add_change r w data k h t rts)) = r_owns r /\
+    forall h', owner_of (fst (add_change r w data k h t rts)) h' = owner_of r h'.
+  Proof.
+    intros Hd Ha. assert (Hd' : q_depth (r_qos r) <> Some 0) by (unfold r; now rewrite run_qos).
+    pose proof (not_stored_owns_unchanged r w data k h t rts Hd' Ha) as H.
+    split; [exact H|]. intros h'. unfold owner_of. now rewrite H.
+  Qed.
+
+  (* a change from an entitled writer alters ownership exactly when it is stored: then the
+     writer becomes the owner (alive change) or the ownership is released (dispose /
+     unregister), and no other instance is affected *)
   Theorem entitled_effect w data k h t rts :
     entitled r w h = true -> (is_alive_kind k = true \/ find_inst h (r_insts r) <> None) ->
     let r' := fst (add_change r w data k h t rts) in
-    snd (add_change r w data k h t rts) <> AddError /\
-    (forall h', owner_of r' h' = if h' =? h then (if is_alive_kind k then Some w else None) else owner_of r h') /\
-    (no_other_gate q -> snd (add_change r w data k h t rts) = Added).
+    let a := snd (add_change r w data k h t rts) in
+    a <> AddError /\
+    (a = Added ->
+     forall h', owner_of r' h' = if h' =? h then (if is_alive_kind k then Some w else None) else owner_of r h') /\
+    (a <> Added -> q_depth q <> Some 0 -> forall h', owner_of r' h' = owner_of r h') /\
+    (no_other_gate q -> a = Added).
   Proof.
     intros E Hk. cbv zeta. destruct (excl_inv_run q ops Hexcl) as (He & ND & OK). fold r in He, ND, OK.
     assert (HT : exists l1, touch_instance (r_insts r) h k = Some l1).
@@ -435,24 +499,29 @@ Section History.
       destruct (find_inst h (r_insts r)); [eexists; reflexivity|]. rewrite Hk. eexists; reflexivity. }
     destruct HT as [l1 T].
     pose proof (add_change_excl r w data k h t rts l1 He ND T) as H. cbv zeta in H. rewrite E in H.
-    destruct H as (H1 & _ & H3). split; [exact H1|]. split; [exact H3|].
-    intros NG. pose proof (gate_spec (set_insts r l1) w h rts He) as G.
-    change (entitled (set_insts r l1) w h) with (entitled r w h) in G.
-    destruct (ownership_gate (set_insts r l1) w h rts) as [owns2|] eqn:Eg; [|congruence].
-    eapply add_change_free; [|exact T|exact Eg]. unfold r. now rewrite run_qos.
+    destruct H as (H1 & _ & _ & H3). split; [exact H1|]. split; [|split].
+    - intros Ha. rewrite Ha in H3. exact H3.
+    - intros Ha Hd. apply not_stored_owner_unchanged; assumption.
+    - intros NG. pose proof (gate_spec (set_insts r l1) w h rts He) as G.
+      change (entitled (set_insts r l1) w h) with (entitled r w h) in G.
+      destruct (ownership_gate (set_insts r l1) w h rts) as [owns2|] eqn:Eg; [|congruence].
+      eapply add_change_free; [|exact T|exact Eg]. unfold r. now rewrite run_qos.
   Qed.
 
   Theorem strongest_wins w data k h t rts o so sw :
     owner_of r h = Some o -> strength_of r o = Some so -> strength_of r w = Some sw -> so < sw ->
     is_alive_kind k = true ->
     let r' := fst (add_change r w data k h t rts) in
-    owner_of r' h = Some w /\ (forall h', h' <> h -> owner_of r' h' = owner_of r h') /\
-    (no_other_gate q -> snd (add_change r w data k h t rts) = Added).
+    let a := snd (add_change r w data k h t rts) in
+    (a = Added -> owner_of r' h = Some w /\ forall h', h' <> h -> owner_of r' h' = owner_of r h') /\
+    (a <> Added -> q_depth q <> Some 0 -> forall h', owner_of r' h' = owner_of r h') /\
+    (no_other_gate q -> a = Added).
   Proof.
     intros Ho Hso Hsw Hlt Hk. cbv zeta.
     assert (E : entitled r w h = true).
     { unfold entitled. rewrite Ho, Hso, Hsw. apply orb_true_iff. right. now apply Z.ltb_lt. }
-    destruct (entitled_effect w data k h t rts E (or_introl Hk)) as (_ & H2 & H3). split; [|split; [|exact H3]].
+    destruct (entitled_effect w data k h t rts E (or_introl Hk)) as (_ & H2 & H3 & H4).
+    split; [|split; [exact H3|exact H4]]. intros Ha. specialize (H2 Ha). split.
     - rewrite H2, Z.eqb_refl, Hk. reflexivity.
     - intros h' Hne. rewrite H2. apply Z.eqb_neq in Hne. now rewrite Hne.
   Qed.
@@ -485,7 +554,7 @@ Section History.
       [|rewrite (add_change_unknown _ _ _ _ _ _ _ T) in Ha; discriminate].
     pose proof (add_change_excl r w data k h t rts l1 He ND T) as H. cbv zeta in H.
     destruct (entitled r w h); [|destruct H as (H & _); congruence].
-    destruct H as (_ & _ & H3). split; [reflexivity|].
+    destruct H as (_ & _ & _ & H3). rewrite Ha in H3. cbn [commits] in H3. split; [reflexivity|].
     assert (Ho : owner_of (fst (add_change r w data k h t rts)) h = if is_alive_kind k then Some w else None)
       by (rewrite H3, Z.eqb_refl; reflexivity).
     split; [exact Ho|]. intros Hk w'. unfold entitled. rewrite Ho, Hk. reflexivity.
@@ -538,3 +607,19 @@ Proof.
   split; [unfold no_other_gate, wq; cbn; repeat split; discriminate|].
   vm_compute. repeat split; reflexivity.
 Qed.
+
+(* replay of the case that exposed the defect repaired by 9c92a58 (replays/C24-a01b301e15):
+   max_samples_per_instance 1; the owner's (writer 3, strength 5) dispose is Rejected, so
+   it stays the owner and the samples of writer 2 (strength 1) are NotAdded, also after
+   the owner's sample was taken *)
+Definition fx_q : qos := mkQ true None (Some 2) (Some 2) (Some 1) true (Some 0).
+Definition fx_ops : list op :=
+  [OpMatch 1 2; OpMatch 2 1; OpMatch 3 5; OpAdd 3 1 KAlive (Some 11) 101 13;
+   OpAdd 3 1 KDisposed (Some 23) 102 16; OpAdd 2 1 KAlive (Some 30) 103 18;
+   OpTake 2147483647 (mkM true true true true true true true) (Some 1);
+   OpAdd 2 1 KAlive (Some 5) 104 18].
+Lemma fix_replay :
+  map (fun x => match x with ObsAdd a => Some a | _ => None end) (snd (run_obs (init_reader fx_q) fx_ops)) =
+    [None; None; None; Some Added; Some (Rejected 1 3); Some NotAdded; None; Some NotAdded] /\
+  owner_of (run fx_q fx_ops) 1 = Some 3 /\ r_samples (run fx_q fx_ops) = [].
+Proof. vm_compute. repeat split; reflexivity. Qed.
